@@ -205,13 +205,19 @@ def returned_object_carries(p, fi, src_terms, ctx, carrying):
     v = p.value
     alts = T.strip_phi(v)
     ok_all = True
+    n_array = 0
     for alt in alts:
         while alt[0] in ('mut', 'setitem'):
             alt = alt[1]
         if alt[0] == 'carried':
             continue
         if alt in src_terms:
+            n_array += 1
             continue                      # returns the array itself
+        # alternatives that are not DimArrays (labels picked out of .values, tuples of labels, raw NumPy results, None) carry nothing and are not judged
+        if alt[0] in ('sub', 'tuple', 'const', 'item') or (alt[0] == 'call' and (T.dotted(alt[1]) in ('tuple', 'list', 'float', 'int') or (T.dotted(alt[1]) or '').startswith(('np.', 'numpy.')))):
+            continue
+        n_array += 1
         if alt[0] == 'call':
             kw = dict(alt[3]).get('**')
             n = T.call_name(alt)
@@ -229,7 +235,7 @@ def returned_object_carries(p, fi, src_terms, ctx, carrying):
                 continue
         ok_all = False
         return False, alt
-    return ok_all, None
+    return (ok_all and n_array > 0), None
 
 
 def strip(t):
